@@ -183,6 +183,61 @@ def r3(F, R):
     R.floor("C03-R3", 10)
 
 
+def _latch_flag(b, flag, cbb, sw_bb, exit_bb):
+    """Flag given as a boolean latch (a local assigned only constants, possibly negated): propagate (value, left-through-loop-exit)
+    over the CFG and require value == True exactly for states that passed the loop-exit edge. Returns None (cannot evaluate),
+    '' (holds) or a description of the violating state."""
+    neg = False
+    while flag[0] == "un" and flag[1] == "Not":
+        neg = not neg
+        flag = flag[2]
+    if flag[0] != "local":
+        return None
+    L = flag[1]
+    ds = b.defs().get(L, [])
+    vals = {}
+    for d in ds:
+        if d[0] != "stmt" or d[3]["k"] != "assign" or d[3]["pl"]["p"] or d[3]["rv"]["k"] != "use" or d[3]["rv"]["op"]["k"] != "const":
+            return None
+        c = d[3]["rv"]["op"]["const"]
+        if c.get("v") not in ("true", "false"):
+            return None
+        vals.setdefault(d[1], []).append(c["v"] == "true")
+    succ = b.succ_map()
+    states = {0: {(None, False)}}
+    work = [0]
+    out_states = {}
+    while work:
+        x = work.pop()
+        ins = states.get(x, set())
+        outs = set()
+        for (v, via) in ins:
+            if x in vals:
+                v = vals[x][-1]
+            outs.add((v, via))
+        if out_states.get(x) == outs:
+            continue
+        out_states[x] = outs
+        for y in succ[x]:
+            new = set()
+            for (v, via) in outs:
+                new.add((v, via or (x == sw_bb and y == exit_bb)))
+            if not new <= states.get(y, set()):
+                states[y] = states.get(y, set()) | new
+                work.append(y)
+    bad = []
+    for (v, via) in out_states.get(cbb, set()):
+        if v is None:
+            bad.append("flag may be unassigned")
+            continue
+        val = (not v) if neg else v
+        if val and not via:
+            bad.append("true on a path that left the loop early")
+        if (not val) and via:
+            bad.append("false on the loop-exit (maxdepth) path")
+    return "; ".join(sorted(set(bad)))
+
+
 def r4(F, R):
     R.rule("C03-R4", "SampleInfo.reached_maxdepth = true is produced only on the exit path of the doubling loop whose condition compares the tree depth "
                      "with maxdepth; every return from inside the loop passes false; NutsTree.depth is written only as 0 or += 1")
@@ -242,7 +297,13 @@ def r4(F, R):
             elif is_true:
                 R.bad("C03-R4", key, site, "reached_maxdepth = true on a path that left the loop early (turning/divergence/dim 0)")
             else:
-                R.bad("C03-R4", key, site, "reached_maxdepth flag is not a constant: %s" % vt_str(flag))
+                verdict = _latch_flag(b, flag, bb, cur, exit_edge)
+                if verdict is None:
+                    R.bad("C03-R4", key, site, "reached_maxdepth flag is neither a constant nor a boolean latch the rule can evaluate: %s" % vt_str(flag))
+                elif verdict:
+                    R.bad("C03-R4", key, site, "reached_maxdepth flag (latch %s): %s" % (vt_str(flag), verdict))
+                else:
+                    R.ok("C03-R4", key, site, "reached_maxdepth latch is true exactly on paths through the loop-exit edge")
     for (wb, bb, st, v, how) in K.field_writers(F, TREE, "depth"):
         site = "%s @%s" % (wb.path, loc(st["span"]))
         key = "%s:depth<-%s" % (wb.path, how)
@@ -266,7 +327,7 @@ def r4(F, R):
                         R.ok("C03-R4", key, "%s @%s" % (ib.path, loc(st["span"])), "SampleInfo{depth: self.depth, reached_maxdepth: <flag argument>}")
                     else:
                         R.bad("C03-R4", key, "%s @%s" % (ib.path, loc(st["span"])), "SampleInfo is not built from self.depth and the flag argument")
-    R.floor("C03-R4", 8)
+    R.floor("C03-R4", 5)  # loop condition, >=1 info site, two depth writers, SampleInfo construction (a single-exit refactor has fewer info sites)
 
 
 def r5(F, R):
